@@ -1,4 +1,5 @@
 import GitSizer.Proofs.Config
+import GitSizer.Proofs.GenStrs
 /-! # C15 — Refgroup definitions in gitconfig are read faithfully
     Theorems about the model of `Repository.GetConfig` / `configKeyMatchesPrefix`
     (git/gitconfig.go), tied to the code by the `config` and `confige2e` engines. The form of the
@@ -28,6 +29,18 @@ theorem getConfig_eq_reference (listing pfx : Bytes) : getConfig listing pfx = e
 /-- a prefix matches only at a '.' component boundary; the remainder is exact -/
 theorem prefix_boundary (key pfx rest : Bytes) :
     keyMatchesPrefix key pfx = (true, rest) ↔ KeyUnder key pfx rest := keyMatchesPrefix_spec key pfx rest
+
+/-- `configKeyMatchesPrefix` as REGENERATED from git/gitconfig.go on this run (index and slice
+    expressions are checked: out of range = panic): it never panics and is the '.'-boundary
+    relation with the exact remainder, for all byte strings -/
+theorem config_key_match_source (key pfx rest : Bytes) :
+    Gen.Strs.configKeyMatchesPrefix key pfx = .ok (keyMatchesPrefix key pfx) ∧
+    (Gen.Strs.configKeyMatchesPrefix key pfx = .ok (true, rest) ↔ KeyUnder key pfx rest) := by
+  refine ⟨configKeyMatchesPrefix_regenerated key pfx, ?_⟩
+  rw [configKeyMatchesPrefix_regenerated, ← keyMatchesPrefix_spec]
+  constructor
+  · intro h; exact Res.ok.inj h
+  · intro h; rw [h]
 
 /-- no leak between sibling names: an entry of `refgroup.ab.*` is not under `refgroup.a` -/
 theorem no_leak_example :
